@@ -139,14 +139,78 @@ theorem update_step {π v p dev : Nat} {u : Bool} {s : State} {pt' : List Page}
         · rfl
         · exact hm.2 x hx
 
+/-- what `releaseReplaced` does when it succeeds: the recorded page of the calling process goes to the free list
+of its device, or (no record / a record of another process) only the ghost counter moves -/
+theorem releaseReplaced_ok {s s' : State} {π : Nat} {m : Option Page} (h : releaseReplaced s π m = .ok s') :
+    (∃ old d, m = some old ∧ old.pid = π ∧ devOf s.devs old.paddr = some d ∧
+      s' = { s with pool := { s.pool with frees := s.pool.frees.modify d (· ++ [old.paddr]) } }) ∨
+    ((∀ old, m = some old → old.pid ≠ π) ∧ s' = { s with leaked := s.leaked + 1 }) := by
+  unfold releaseReplaced at h
+  split at h
+  · rename_i old
+    split at h
+    · rename_i hp
+      split at h
+      · simp at h
+      · rename_i d hd
+        injection h with h
+        exact Or.inl ⟨old, d, rfl, hp, hd, h.symm⟩
+    · rename_i hp
+      injection h with h
+      refine Or.inr ⟨?_, h.symm⟩
+      intro o ho
+      injection ho with ho
+      subst ho
+      exact hp
+  · injection h with h
+    exact Or.inr ⟨fun o ho => (by cases ho), h.symm⟩
+
+/-- one iteration of the repaired loop of allocateMultiplePagesWithGivenVAddrs: the entry is re-pointed to the
+fresh page `p`, then the replaced page goes back to its device (the allocator's record is right about it:
+`MirrorWeak`) — or is not given back when the record belongs to another process. Pages that were fresh and are
+not `p` stay fresh. -/
+theorem update_release_step {π v p dev : Nat} {u : Bool} {s s1 : State} {pt' : List Page}
+    (hd : devOf s.devs p = some dev)
+    (hu : ptUpdate s.pt (mkPg π v p dev u) = .ok pt')
+    (hr : releaseReplaced { s with pt := pt', mirror := (v, mkPg π v p dev u) :: s.mirror } π (lookup s.mirror v) = .ok s1)
+    (h : PInv s.ps s.devs s.pool.frees s.pt) (hM : MirrorWeak s.mirror s.pt)
+    (hf : Fresh s.ps s.devs s.pool.frees s.pt p) :
+    Pres π s s1 ∧ s1.ps = s.ps ∧ s1.devs = s.devs ∧
+    (∀ q, Fresh s.ps s.devs s.pool.frees s.pt q → q ≠ p → Fresh s1.ps s1.devs s1.pool.frees s1.pt q) := by
+  have hstep := update_step (π := π) (v := v) (u := u) hd hu h hf
+  obtain ⟨⟨e, hfind⟩, hpt⟩ := ptUpdate_ok hu
+  obtain ⟨he1, he2, he3⟩ := ptFind_some hfind
+  subst hpt
+  rcases releaseReplaced_ok hr with ⟨old, d, hl, hp, hdo, rfl⟩ | ⟨_, rfl⟩
+  · -- the record belongs to the caller: it names the physical page of the entry that was overwritten
+    have hpa : e.paddr = old.paddr := hM.2 v old hl e he1 (he2.trans hp.symm) he3
+    have hlive : old.paddr ∈ s.pt.map (·.paddr) := hpa ▸ List.mem_map_of_mem he1
+    have hnf : old.paddr ∉ s.pool.frees.flatten := fun hfree => h.disj _ hfree hlive
+    have hnl : old.paddr ∉ (s.pt.map (upd (mkPg π v p dev u))).map (·.paddr) :=
+      hpa ▸ replaced_not_live (pg := mkPg π v p dev u) h he1 ⟨he2, he3⟩ hf.notLive
+    have hdlt : d < s.pool.frees.length := by
+      obtain ⟨dv, hdv, _, _⟩ := devOf_spec hdo
+      rw [h.len]
+      rcases Nat.lt_or_ge d s.devs.length with hl' | hl'
+      · exact hl'
+      · simp [List.getElem?_eq_none hl'] at hdv
+    refine ⟨⟨hstep.1.release hnf hnl (hpa ▸ h.palign e he1) hdo, fun hs hm => hstep.2 hs hm⟩, rfl, rfl, ?_⟩
+    intro q hq hqp
+    have hq1 := hq.after_update (pg := mkPg π v p dev u) hqp
+    exact hq1.after_release (fun hqo => hq.notLive (hqo ▸ hlive)) hdlt
+  · refine ⟨⟨hstep.1, fun hs hm => hstep.2 hs hm⟩, rfl, rfl, ?_⟩
+    intro q hq hqp
+    exact hq.after_update (pg := mkPg π v p dev u) hqp
+
 theorem remapLoop_pres (π : Nat) (u : Bool) : ∀ (vs ps : List Nat) (s s' : State),
-    PInv s.ps s.devs s.pool.frees s.pt → ps.Nodup → (∀ p ∈ ps, Fresh s.ps s.devs s.pool.frees s.pt p) →
+    PInv s.ps s.devs s.pool.frees s.pt → MirrorWeak s.mirror s.pt → ps.Nodup →
+    (∀ p ∈ ps, Fresh s.ps s.devs s.pool.frees s.pt p) →
     remapLoop π u vs ps s = .ok s' → Pres π s s' := by
   intro vs
   induction vs with
-  | nil => intro ps s s' hP _ _ h; simp [remapLoop] at h; subst h; exact Pres.refl hP
+  | nil => intro ps s s' hP _ _ _ h; simp [remapLoop] at h; subst h; exact Pres.refl hP
   | cons v vs ih =>
-    intro ps s s' hP hnd hf h
+    intro ps s s' hP hM hnd hf h
     cases ps with
     | nil => simp [remapLoop] at h; subst h; exact Pres.refl hP
     | cons p ps =>
@@ -157,24 +221,31 @@ theorem remapLoop_pres (π : Nat) (u : Bool) : ∀ (vs ps : List Nat) (s s' : St
         split at h
         · simp at h
         · rename_i pt' hu
-          have hstep := update_step (π := π) (v := v) (u := u) hd hu hP (hf p (List.mem_cons_self ..))
-          refine hstep.trans (ih ps _ s' ?_ (List.nodup_cons.mp hnd).2 ?_ h)
-          · exact hstep.1
-          intro q hq
-          obtain ⟨_, rfl⟩ := ptUpdate_ok hu
-          exact (hf q (List.mem_cons_of_mem _ hq)).after_update
-            (pg := (mkPg π v p dev u))
-            (fun hqp => (List.nodup_cons.mp hnd).1 (by have hq' := hq; rw [hqp] at hq'; exact hq'))
+          split at h
+          · simp at h
+          · rename_i s1 hr
+            obtain ⟨hstep, e1, e2, hfr⟩ := update_release_step (π := π) (v := v) (u := u) hd hu hr hP hM
+              (hf p (List.mem_cons_self ..))
+            have hM1 : MirrorWeak s1.mirror s1.pt := by
+              obtain ⟨_, rfl⟩ := ptUpdate_ok hu
+              have hm0 : MirrorWeak ((v, mkPg π v p dev u) :: s.mirror) (s.pt.map (upd (mkPg π v p dev u))) :=
+                hM.push_update rfl
+              rcases releaseReplaced_ok hr with ⟨_, _, _, _, _, rfl⟩ | ⟨_, rfl⟩ <;> exact hm0
+            refine hstep.trans (ih ps _ s' hstep.1 hM1 (List.nodup_cons.mp hnd).2 ?_ h)
+            intro q hq
+            exact hfr q (hf q (List.mem_cons_of_mem _ hq))
+              (fun hqp => (List.nodup_cons.mp hnd).1 (by have hq' := hq; rw [hqp] at hq'; exact hq'))
 
 theorem remap_pres {s s' : State} {π addr bytes d : Nat}
-    (hP : PInv s.ps s.devs s.pool.frees s.pt) (h : remap s π addr bytes d = .ok s') : Pres π s s' := by
+    (hP : PInv s.ps s.devs s.pool.frees s.pt) (hM : MirrorWeak s.mirror s.pt)
+    (h : remap s π addr bytes d = .ok s') : Pres π s s' := by
   unfold remap at h
   dsimp only at h
   split at h
   · simp at h
   · rename_i ps pool' hm
     obtain ⟨h1, h2, h3⟩ := hP.shrink (allocMulti_took hm).1
-    exact remapLoop_pres π false _ ps { s with pool := pool' } s' h1 h2 h3 h
+    exact remapLoop_pres π false _ ps { s with pool := pool' } s' h1 hM h2 h3 h
 
 theorem allocGiven_pres {s s' : State} {π d v : Nat} {u : Bool} {pg : Page}
     (hP : PInv s.ps s.devs s.pool.frees s.pt) (h : allocGiven s π d v u = .ok (pg, s')) :
